@@ -141,6 +141,18 @@ class LStar:
         done = self.cache[key + ("done",)]
         want = np.arange(lib.n) if rows is None else np.unique(np.asarray(rows, dtype=int))
         packed = self.packed(data_idx, lib_idx)
+        todo = want[~done[want]]
+        if len(todo) > 20000:
+            # scale probe (libraries of ~10^6 rows): row-at-a-time is infeasible; the reference is evaluated in
+            # chunks of 4096 rows, each by a FRESH helper (weaker: batch-independence itself is C05's business)
+            for i in range(0, len(todo), 4096):
+                ch = todo[i : i + 4096]
+                h = self.helper(data_idx)
+                ll[ch] = np.array(h.batch_marginal_ln_likelihood(np.ascontiguousarray(packed[ch])))
+                done[ch] = True
+                self.evals += len(ch)
+            for r in self.forced.get(lib_idx, ()):
+                ll[r] = -np.inf
         for r in want:
             if not done[r]:
                 h = self.helper(data_idx)
